@@ -25,7 +25,19 @@ var c08Frags = []string{
 	"\"", "//", "/*", "*/", "#", "\n", " ",
 }
 
+// c08Text judges a text as written and, for generated (not enumerated) texts, once more with every optional
+// blank removed.
 func (c *Ctx) c08Text(s *Sub, sub, text string, enum bool) {
+	c.c08TextAsWritten(s, sub, text, enum)
+	if !enum {
+		if sq, ok := squeezeText(text); ok {
+			c.Ev.Class("squeezed")
+			c.c08TextAsWritten(s, sub, sq, enum)
+		}
+	}
+}
+
+func (c *Ctx) c08TextAsWritten(s *Sub, sub, text string, enum bool) {
 	src := []rune(text)
 	fr := c.realFront(src)
 	ref := reflex.Lex(src)
